@@ -25,6 +25,42 @@ func Shrink(words []uint64, want string, run func([]uint64) string, maxExec int,
 		return c
 	}
 	best = trim(best)
+	// the first words of every tape are the run's configuration (number of tasks, calls,
+	// strategy, fault modes): making them small first shortens everything that follows
+	lowerHead := func() {
+		for i := 0; i < len(best) && i < 24; i++ {
+			if best[i] == 0 {
+				continue
+			}
+			c := append([]uint64(nil), best...)
+			c[i] = 0
+			if try(c) {
+				best = trim(c)
+				continue
+			}
+			// small ranges (a choice among a dozen shapes): the smallest value that still fails
+			if best[i] <= 16 {
+				for v := uint64(1); v < best[i]; v++ {
+					c := append([]uint64(nil), best...)
+					c[i] = v
+					if try(c) {
+						best = trim(c)
+						break
+					}
+				}
+				continue
+			}
+			for v := best[i] / 2; v > 0 && v < best[i]; v /= 2 {
+				c := append([]uint64(nil), best...)
+				c[i] = v
+				if try(c) {
+					best = trim(c)
+					break
+				}
+			}
+		}
+	}
+	lowerHead()
 	improved := true
 	for improved && execs < maxExec && !time.Now().After(deadline) {
 		improved = false
@@ -101,6 +137,9 @@ func Shrink(words []uint64, want string, run func([]uint64) string, maxExec int,
 			}
 		}
 		best = trim(best)
+		if improved {
+			lowerHead()
+		}
 	}
 	return best, execs
 }
